@@ -406,6 +406,76 @@ func c12R3(c *Ctx, r *Report) {
 		problems = append(problems, "a stream reply with a foreign ID does not yield ErrId")
 	}
 	r.check(len(problems) == 0, "C12.R3.id-match", "ExchangeWithConnContext:branches", c.pos(fn.Pos()), "loop on packets, ErrId on streams", "%s", strings.Join(problems, "; "))
+	// the skip loop ends "when the deadline arrives": the read deadline armed before it is the earlier of the client's
+	// own read timeout and the context's deadline, decided by comparing the context's deadline with the read deadline itself
+	{
+		var problems []string
+		nSet := 0
+		for _, kind := range []string{"SetReadDeadline", "SetWriteDeadline"} {
+			for _, ci := range callsIn(fn, "(Conn)."+kind, "(net.Conn)."+kind) {
+				nSet++
+				arg := ci.Common().Args[len(ci.Common().Args)-1]
+				var own ssa.Value
+				var ctxEdges []int
+				phi, isPhi := arg.(*ssa.Phi)
+				if !isPhi {
+					problems = append(problems, fmt.Sprintf("%s: %s is not given min(own timeout, context deadline)", c.pos(ci.Pos()), kind))
+					continue
+				}
+				leaves := phiLeaves(phi)
+				for _, l := range leaves {
+					if call, ok := l.(*ssa.Call); ok && calleeNameSSA(&call.Call) == "(time.Time).Add" {
+						own = l
+					}
+				}
+				_ = ctxEdges
+				if own == nil {
+					problems = append(problems, fmt.Sprintf("%s: %s does not start from now + the client's timeout", c.pos(ci.Pos()), kind))
+					continue
+				}
+				// every edge that carries the context's deadline is taken on deadline.Before(<this very deadline>)
+				var check func(p *ssa.Phi, seen map[*ssa.Phi]bool)
+				check = func(p *ssa.Phi, seen map[*ssa.Phi]bool) {
+					if seen[p] {
+						return
+					}
+					seen[p] = true
+					for i, e := range p.Edges {
+						if q, ok := e.(*ssa.Phi); ok {
+							check(q, seen)
+							continue
+						}
+						if e == own {
+							continue
+						}
+						pred := p.Block().Preds[i]
+						fs := factsAt(fn, pred)
+						if ef, ok := edgeFact(pred, p.Block()); ok {
+							fs = append(fs, ef)
+						}
+						okCmp := false
+						for _, fc := range fs {
+							call, isCall := fc.Atom.(*ssa.Call)
+							if !isCall || calleeNameSSA(&call.Call) != "(time.Time).Before" || !fc.Holds {
+								continue
+							}
+							if call.Call.Args[0] == e && call.Call.Args[1] == own {
+								okCmp = true
+							}
+						}
+						if !okCmp {
+							problems = append(problems, fmt.Sprintf("%s: the context's deadline replaces the %s deadline on a comparison with another value, not with that deadline itself: with ReadTimeout != WriteTimeout a context deadline between the two is not applied to one of them (the datagram skip loop then runs past the context's deadline)", c.pos(ci.Pos()), strings.TrimSuffix(strings.TrimPrefix(kind, "Set"), "Deadline")))
+						}
+					}
+				}
+				check(phi, map[*ssa.Phi]bool{})
+			}
+		}
+		if nSet != 2 {
+			problems = append(problems, fmt.Sprintf("%d deadline calls, want SetWriteDeadline and SetReadDeadline", nSet))
+		}
+		r.check(len(uniqStrings(problems)) == 0, "C12.R3.id-match", "ExchangeWithConnContext:deadlines", c.pos(fn.Pos()), "min(own, ctx) each by its own comparison", "%s", strings.Join(uniqStrings(problems), "; "))
+	}
 }
 
 func c12R4(c *Ctx, r *Report) {
